@@ -30,7 +30,7 @@ def _where():
     f = sys._getframe(2)
     while f is not None:
         fn = f.f_code.co_filename
-        if '/dfols/' in fn or fn.endswith('step.py') or fn.endswith('state.py') or '/checks/' in fn:
+        if '/dfols/' in fn or fn.endswith('step.py') or fn.endswith('state.py') or '/checks/' in fn or fn.endswith('outer.py'):
             return "%s:%d" % (os.path.basename(fn), f.f_lineno)
         f = f.f_back
     return '?'
@@ -236,6 +236,8 @@ class Path(object):
 
     # ---- decisions ------------------------------------------------------------------
     def _commit(self, term, choice, forced):
+        if PROFILE:
+            self.notes.append('T%d %s %s %s' % (len(self.trace), choice, forced, _where()))
         self.trace.append(('d', bool(choice), bool(forced)))
         t = term if choice else z3.Not(term)
         self.solver.add(t)
@@ -247,13 +249,8 @@ class Path(object):
             return True
         if z3.is_false(term):
             return False
-        hit = self.decided.get(term.get_id())
-        if hit is not None:
-            return hit[0]
-        if z3.is_not(term):
-            hit = self.decided.get(term.arg(0).get_id())
-            if hit is not None:
-                return not hit[0]
+        # Every non-constant decision produces exactly one trace entry - cache hits included - so that a replayed prefix
+        # stays in step even though z3's simplifier may order arguments differently from run to run (AST ids).
         self.ndec += 1
         if self.ndec > self.cfg.max_depth:
             raise PathAbort('depth', 'more than %d decisions' % self.cfg.max_depth)
@@ -265,6 +262,14 @@ class Path(object):
             self._commit(term, ent[1], ent[2])
             self.last_model = None
             return ent[1]
+        hit = self.decided.get(term.get_id())
+        if hit is None and z3.is_not(term):
+            h2 = self.decided.get(term.arg(0).get_id())
+            if h2 is not None:
+                hit = (not h2[0], term)
+        if hit is not None:
+            self.trace.append(('d', bool(hit[0]), True))
+            return hit[0]
         # new decision
         guess = None
         if self.last_model is not None:
@@ -317,6 +322,8 @@ class Path(object):
                 if ent[0] != 'v':
                     raise PathAbort('desync', 'expected value pick, prefix has %r' % (ent,))
                 v = ent[1]
+                if PROFILE:
+                    self.notes.append('T%d pick(replay) %s %s' % (len(self.trace), v, _where()))
                 self.trace.append(ent)
             else:
                 rs, vals, _ = self.check([], eval_terms=[term])
@@ -326,6 +333,8 @@ class Path(object):
                         raise PathAbort('unknown', 'cannot concretise int (solver unknown)')
                     raise PathAbort('infeasible', 'path condition unsatisfiable')
                 v = vals[0]
+                if PROFILE:
+                    self.notes.append('T%d pick %s %s' % (len(self.trace), v, _where()))
                 self.trace.append(('v', v))
                 self.last_model = None
             if self.decide(term == v):
